@@ -25,7 +25,7 @@ ASSUMPTIONS = ["colours come from a concrete palette (channel arithmetic stays c
                "an operation exactly at a fade end is assumed away"]
 BUDGET = {"quick": 100, "thorough": 600}
 
-PALETTE = [(255, 0, 0), (0, 0, 255), (0, 255, 0), (255, 255, 255), (40, 120, 200)]
+PALETTE = [(255, 0, 0), (0, 0, 255), (100, 100, 100), (255, 255, 255), (40, 120, 200)]
 KEYS = ["a", "b", "c"]
 
 
@@ -118,6 +118,8 @@ def body(S, t, part):
     m = t.machine
     S.now_symbolic(t.loop)
     light = m.lights[part["light"]]
+    if part.get("rgbw_style"):
+        light._rbgw_style = part["rgbw_style"]
     rec = _install_backend(S, t, light, part["backend"])
     other = m.lights["l_rgb2"]
     rec_other = _install_backend(S, t, other, part["backend"]) if part["backend"] == "batch" else None
@@ -173,6 +175,12 @@ def body(S, t, part):
         raise Violation(clause, "Light._add_to_stack" if model else "Light.remove_from_stack_by_key",
                         "logical colour %s, expected %s; model %s; stack %s" % (got, want, model, [(e.key, e.priority) for e in light.stack]))
     chans = {"red": want[0], "green": want[1], "blue": want[2], "white": min(want)}
+    style = part.get("rgbw_style")
+    if style == "white_only":           # any shade of white goes to the white channel only
+        grey = want[0] == want[1] == want[2]
+        chans = {"red": 0 if grey else want[0], "green": 0 if grey else want[1], "blue": 0 if grey else want[2], "white": want[0] if grey else 0}
+    elif style == "duck_rgb":           # white is the common part, the colour channels carry the rest
+        chans = {"red": want[0] - min(want), "green": want[1] - min(want), "blue": want[2] - min(want), "white": min(want)}
     for color, drivers in light.hw_drivers.items():
         expect = chans[color] / 255.0
         for drv in drivers:
@@ -198,10 +206,16 @@ def scenarios(tier):
             for s in seqs:
                 parts.append(dict(light="l_rgb", backend=b, ops=s, rot=len(parts)))
         parts.append(dict(light="l_w", backend="soft", ops=["color", "color", "remove"], rot=1))
+        for k, style in enumerate(("white_only", "min_rgb", "duck_rgb")):
+            parts.append(dict(light="l_rgbw", backend="virtual", ops=["color", "color"], rot=k + 1, rgbw_style=style))
+            parts.append(dict(light="l_rgbw", backend="virtual", ops=["color", "remove"], rot=k + 2, rgbw_style=style))
     else:
         import itertools
         for b in ("virtual", "soft", "direct", "batch"):
             for s in itertools.product(["color", "remove", "clear"], repeat=3):
                 parts.append(dict(light="l_rgb", backend=b, ops=["color"] + list(s)))
+        for style in ("white_only", "min_rgb", "duck_rgb"):
+            for b in ("virtual", "soft"):
+                parts.append(dict(light="l_rgbw", backend=b, ops=["color", "color", "remove", "color"], rgbw_style=style))
     pb = 55 if tier == "quick" else 300
     return [Scenario("stack", setup, body, parts, teardown=teardown, part_budget=pb, per_path_timeout=30)]
